@@ -62,6 +62,7 @@ def c19_run(rep, rng, tier):
         for (ae, acc) in C19_FLAGS:
             reqs.append([1, ae, ([] if acc is None else [acc]), s])
             meta.append((s, ae, acc))
+    rep.xreqs += reqs[:30] + reqs[-30:]
     answers = model.ask(reqs, chunk=4000)
     for (s, ae, acc), a in zip(meta, answers):
         payload = {'input': s, 'allow_empty_terminator': ae, 'acceptable_terminators': acc}
@@ -220,6 +221,7 @@ def c18_run(rep, rng, tier, term):
     for l in odd_lists:
         for ae in (False, True):
             reqs.append([2, 1, [x if isinstance(x, int) else x for x in l], ae]); meta.append(('list', l, ae))
+    rep.xreqs += reqs[:40] + reqs[-40:]
     answers = model.ask(reqs, chunk=5000)
     for (kind, inp, ae), a in zip(meta, answers):
         payload = {'input': inp, 'add_erroneous': ae}
